@@ -449,3 +449,45 @@ def job_contract(job, meth, soft):
 
 job_contract("_compute_best_alignment_job", "get_best_alignment", False)
 job_contract("_compute_soft_alignment_job", "get_best_soft_alignment", True)
+
+# =========================================================================================================
+# csv export / import   (C18 X1, X2)
+# =========================================================================================================
+from pyvc.contract import ClassT   # noqa: E402
+CSV_MACROS = ITER_MACROS + [
+    Macro("rowof", ["r", "a", "u"], "r[0].text == a and r[1].text == ite(u.haslab, u.lab, emptystr()) and r[2].num == u.s and r[3].num == u.e"),
+    Macro("validrow", ["r"], "r[3].num - r[2].num > 1e-6"),
+    Macro("unitof", ["r"], "mkunit(r[2].num, r[3].num, r[1].text)"),
+]
+
+contract(F + "Continuum.to_csv",
+         params={"self": CONT(), "path": StrT(), "delimiter": StrT()}, modifies=[], macros=CSV_MACROS,
+         ghost_vars={"OUT": ("Int", None)},
+         ensures=[cl("len(OUT) == NumUnits(self)", "C18", name="one-row-per-unit"),
+                  cl("forall([(a, Real), (u, Unit)], implies(Us(self)[a][u], rowof(OUT[flat(self, a, u)], a, u)))", "C18",
+                     name="row-is-annotator-label-start-end")],
+         loops={"L0": dict(match="for annotator, unit in self", index="iU", modifies=["csv_file"],
+                           inv=["len(filerows(csv_file)) == iU",
+                                "forall([(a, Real), (u, Unit)], implies(Us(self)[a][u] and flat(self, a, u) < iU, "
+                                "rowof(filerows(csv_file)[flat(self, a, u)], a, u)))"])},
+         hooks=[("after", "for annotator, unit in self: ...", "OUT = filerows(csv_file)"),
+                ("before", "for annotator, unit in self: ...", "model_inv wfmap(self)")],
+         serves={"C18"})
+
+contract(F + "Continuum.from_csv",
+         params={"cls": ClassT("Continuum"), "path": StrT(), "discard_invalid_rows": BoolT(), "delimiter": StrT()},
+         returns=CONT(), is_classmethod=True, macros=CSV_MACROS + [Macro("T", [], "continuum")],
+         ghost_vars={"IN": ("Int", None)},
+         raises={"ValueError": {"when": "not discard_invalid_rows"}},
+         ensures=[cl("fresh_obj(result)", "C18", name="fresh"),
+                  cl("forall([(a, Real), (u, Unit)], Us(result)[a][u] == exists(k, 0, len(IN), validrow(IN[k]) and IN[k][0].text == a and "
+                     "unitof(IN[k]) == u))", "C18", name="exactly-the-valid-rows"),
+                  cl("implies(not discard_invalid_rows, forall(k, 0, len(IN), validrow(IN[k])))", "C18", name="invalid-rows-only-discarded-when-asked"),
+                  cl("RI(result)", name="RI")],
+         loops={"L0": dict(match="for row in reader", index="iR", modifies=["continuum"],
+                           inv=["forall([(a, Real), (u, Unit)], Us(T())[a][u] == exists(k, 0, iR, validrow(IN[k]) and IN[k][0].text == a and "
+                                "unitof(IN[k]) == u))",
+                                "implies(not discard_invalid_rows, forall(k, 0, iR, validrow(IN[k])))",
+                                "RI(T())"])},
+         hooks=[("before", "for row in reader: ...", "IN = filerows(csv_file)")],
+         serves={"C18"})
